@@ -90,8 +90,9 @@ where
             return Err(TryFromError::NegativeDuration);
         }
 
-        let secs = time.get::<second>().to_u64();
-        let nanos = (time % Time::<U, V>::new::<second>(V::one())).get::<nanosecond>().to_u32();
+        let time_s = time.get::<second>();
+        let secs = time_s.to_u64();
+        let nanos = Time::<U, V>::new::<second>(time_s % V::one()).get::<nanosecond>().to_u32();
 
         match (secs, nanos) {
             (Some(secs), Some(nanos)) => Ok(Self::new(secs, nanos)),
